@@ -71,3 +71,10 @@ Example C02_example :
   m_find c02_cfg c02_q c02_doc = Ok (sem builtin_registry (fun _ _ _ => false) c02_q c02_doc) /\
   length (sem builtin_registry (fun _ _ _ => false) c02_q c02_doc) = 1%nat.
 Proof. repeat split; vm_compute; reflexivity. Qed.
+
+(* precedences, operator tables and the key sets of token_map / function_argument_map in the model are the ones
+   REGENERATED from parse.py and filter_expressions.py on this run *)
+From JP Require Import Proofs.GenTies.
+Theorem C02_parser_tables_regenerated : parse_tables_ok = true.
+Proof. exact parse_tables_regenerated. Qed.
+Print Assumptions C02_parser_tables_regenerated.
